@@ -319,7 +319,12 @@ int main(int argc, char** argv)
         padded_bins = upper_power_of_two(padded_bins);
     }
 
-    size_t spaced_bins = std::ceil(ps_bins*nbuckets*spacing_ps);
+    /* The last bucket starts at (nbuckets-1)*spacing_bins and is ps_bins wide.
+     * As spacing_bins is rounded, this can exceed the rounded-up total length.
+     */
+    size_t spaced_bins = std::max(
+                static_cast<size_t>(std::ceil(ps_bins*nbuckets*spacing_ps)),
+                static_cast<size_t>(nbuckets-1)*spacing_bins+ps_bins);
     if (opts.getRoundPadding()) {
         spaced_bins = upper_power_of_two(spaced_bins);
     }
